@@ -42,17 +42,31 @@ def AgreeOn (P P0 : Prog) (f : Name) : Prop := ∀ x ∈ rules P0 id f, lookup P
 theorem agree_root (h : AgreeOn P P0 f) : lookup P f = lookup P0 f :=
   h (rootNode f) ((mem_rules_nodeOK ordOK_id).mpr (Or.inl rfl))
 
-theorem agree_ref (hT0 : Trackable P0) (h : AgreeOn P P0 f) {p r : Name}
-    (hp : p = f ∨ (ReachN P0 f p ∧ expands P0 p = true)) (href : RefersTo P0 p r) : lookup P r = lookup P0 r := by
-  obtain ⟨y, hy⟩ := mkNode_some_of_trackable hT0 p r
-  have hmem : y ∈ rules P0 id f := by
-    rw [mem_rules_nodeOK ordOK_id]
-    have ht := (mkNode_some hy).2
-    exact Or.inr ⟨p, hp, ht ▸ href, ht ▸ hy⟩
-  have := h y hmem
-  rwa [(mkNode_some hy).2] at this
+/-- agreement of `P` with `P0` on the references of the functions of `f`'s closure for which **no rule** is made
+    (functions of other packages, values of unsupported types): what the symbols watched without a rule (fix F27) are for -/
+def WatchAgree (P P0 : Prog) (f : Name) : Prop :=
+  ∀ p r, (p = f ∨ (ReachN P0 f p ∧ expands P0 p = true)) → RefersTo P0 p r → mkNode P0 p r = none →
+    lookup P r = lookup P0 r
 
-theorem reach_fwd (hT0 : Trackable P0) (h : AgreeOn P P0 f) {g : Name} (hr : ReachN P0 f g) :
+/-- when every definition gets a rule there is nothing to watch -/
+theorem watchAgree_of_trackable (hT0 : Trackable P0) : WatchAgree P P0 f := by
+  intro p r _ _ hn
+  obtain ⟨y, hy⟩ := mkNode_some_of_trackable hT0 p r
+  rw [hy] at hn; cases hn
+
+theorem agree_ref (hT0 : WatchAgree P P0 f) (h : AgreeOn P P0 f) {p r : Name}
+    (hp : p = f ∨ (ReachN P0 f p ∧ expands P0 p = true)) (href : RefersTo P0 p r) : lookup P r = lookup P0 r := by
+  cases hy : mkNode P0 p r with
+  | none => exact hT0 p r hp href hy
+  | some y =>
+    have hmem : y ∈ rules P0 id f := by
+      rw [mem_rules_nodeOK ordOK_id]
+      have ht := (mkNode_some hy).2
+      exact Or.inr ⟨p, hp, ht ▸ href, ht ▸ hy⟩
+    have := h y hmem
+    rwa [(mkNode_some hy).2] at this
+
+theorem reach_fwd (hT0 : WatchAgree P P0 f) (h : AgreeOn P P0 f) {g : Name} (hr : ReachN P0 f g) :
     ReachN P f g ∧ lookup P g = lookup P0 g := by
   induction hr with
   | @direct g href =>
@@ -66,7 +80,7 @@ theorem reach_fwd (hT0 : Trackable P0) (h : AgreeOn P P0 f) {g : Name} (hr : Rea
     · obtain ⟨d, hd, hg⟩ := href
       exact ⟨d, ih2.trans hd, hg⟩
 
-theorem reach_bwd (hT0 : Trackable P0) (h : AgreeOn P P0 f) {g : Name} (hr : ReachN P f g) :
+theorem reach_bwd (hT0 : WatchAgree P P0 f) (h : AgreeOn P P0 f) {g : Name} (hr : ReachN P f g) :
     ReachN P0 f g := by
   induction hr with
   | @direct g href =>
@@ -79,7 +93,7 @@ theorem reach_bwd (hT0 : Trackable P0) (h : AgreeOn P P0 f) {g : Name} (hr : Rea
     · obtain ⟨d, hd, hg⟩ := href
       exact ⟨d, e.symm.trans hd, hg⟩
 
-theorem nodeOK_agree (hT0 : Trackable P0) (h : AgreeOn P P0 f) (x : Node) : NodeOK P f x ↔ NodeOK P0 f x := by
+theorem nodeOK_agree (hT0 : WatchAgree P P0 f) (h : AgreeOn P P0 f) (x : Node) : NodeOK P f x ↔ NodeOK P0 f x := by
   unfold NodeOK
   constructor
   · rintro (h0 | ⟨p, hp, href, hmk⟩)
@@ -118,8 +132,8 @@ theorem nodeOK_agree (hT0 : Trackable P0) (h : AgreeOn P P0 f) (x : Node) : Node
       · rw [← hmk]
         exact mkNode_lookup_congr' (agree_ref hT0 h hp0 href0) p
 
-/-- **closure determines version** -/
-theorem version_congr_closure (H : Ser → List Char) (hT0 : Trackable P0) (h : AgreeOn P P0 f) :
+/-- **closure determines version**: agreement on the targets of the rules and on the watched references -/
+theorem version_congr_watch (H : Ser → List Char) (hT0 : WatchAgree P P0 f) (h : AgreeOn P P0 f) :
     version H P id f = version H P0 id f := by
   have hs : sortedRules P id f = sortedRules P0 id f :=
     sortedRules_congr (fun x => by rw [mem_rules_nodeOK ordOK_id, mem_rules_nodeOK ordOK_id, nodeOK_agree hT0 h])
@@ -129,6 +143,11 @@ theorem version_congr_closure (H : Ser → List Char) (hT0 : Trackable P0) (h : 
   intro x hx
   unfold ruleHash
   rw [h x (mem_sortedRules.mp hx)]
+
+/-- the special case in which every definition gets a rule -/
+theorem version_congr_closure (H : Ser → List Char) (hT0 : Trackable P0) (h : AgreeOn P P0 f) :
+    version H P id f = version H P0 id f :=
+  version_congr_watch H (watchAgree_of_trackable hT0) h
 
 end cong
 end Memento.Version
